@@ -1,5 +1,6 @@
 """Quoting and unquoting utilities for URL parts."""
 
+import unicodedata
 from typing import Union
 from urllib.parse import quote
 
@@ -30,3 +31,21 @@ def human_quote(s: Union[str, None], unsafe: str) -> Union[str, None]:
     if s.isprintable():
         return s
     return "".join(c if c.isprintable() else quote(c) for c in s)
+
+
+def human_quote_userinfo(s: Union[str, None]) -> Union[str, None]:
+    """human_quote() for user and password.
+
+    A character whose NFKC form contains an authority delimiter is
+    rejected by the parser, it cannot be shown as is.
+    """
+    s = human_quote(s, "#/:?@[]")
+    if not s or s.isascii():
+        return s
+    return "".join(
+        quote(c)
+        if not c.isascii()
+        and any(d in unicodedata.normalize("NFKC", c) for d in "/?#@:")
+        else c
+        for c in s
+    )
